@@ -375,7 +375,7 @@ pub fn aggregate(f: AggFunc, has_arg: bool, n_rows: usize, vals: &[V]) -> Result
         AggFunc::Count => Ok(V::Int(nn.len() as i64)),
         AggFunc::Sum | AggFunc::Avg => {
             if nn.is_empty() {
-                return Ok(V::Null);
+                return Ok(V::Int(0));
             }
             let mut all_int = true;
             let mut isum: i128 = 0;
